@@ -165,6 +165,48 @@ NA_REASON = {p: 'contract pack not built yet in this session (see DESIGN.md sect
              for p in ALL}
 
 
+# as-built additions (DESIGN.md section 9): appended to the claim text of each property
+ADDED = {
+    'C01': 'Also under contract: PFlow.nr_step / nr_solve / run (success => tested mismatch < tol), System._e_to_dae / fg_to_dae '
+           '(accumulate adders, overwrite setters, pegged write-back), System.calc_pu_coeff / NumParam.set_pu_coeff (textbook '
+           'ratios) and the declared per-unit bases of the Line data (declaration contract on LineData.__init__).',
+    'C02': 'Function part: Model.f_update / g_update positional binding, refresh_inputs_arg (lookup by name), '
+           'System._find_stale_models / undill (md5 gate), tail of SymProcessor.generate_pycode (overwrite decision; mechanical '
+           'slice) plus a bounded native check that a tampered file with the right md5 line is replaced.',
+    'C03': 'Function part: Model.j_update, _jac_eq_var_name, Model / System.store_sparse_pattern (lockstep triplets, reserved gy '
+           'diagonal), System.j_update (order: model values, pattern reset, each triplet once, island patch), System.j_islands '
+           '(semantic: diag = eps, cross = 0 per islanded bus), DAE.restore_sparse / build_pattern / store_sparse_ijv; native replays.',
+    'C05': 'Also: TDS.init keeps exactly the event schedule built by store_switch_times; GENBase.v_numeric switches off exactly the '
+           'static generators of in-service machines; native replays for test_init and v_numeric.',
+    'C06': 'Also: System.store_switch_times from its merge loop on (every (time, model) pair scheduled, models sharing a time merged, '
+           'switch_times strictly increasing for an initially empty schedule; non-empty schedule = known finding F28), TDS.init '
+           'schedule frame, TimerParam.is_time (exact equality), Model / System.switch_action (each callback once), Toggle._u_switch, '
+           'Fault.apply_fault / clear_fault (exactly the due and enabled devices).',
+    'C07': 'Imported premises are re-verified under this id: the C04 integration contracts, calc_h / do_switch, per-unit conversion, '
+           'and declaration contracts for GENBaseData (M, D on the power base) and LineData.',
+    'C08': 'Complex magnitudes modelled for _store_stats; native replay harness.',
+    'C10': 'Also: group branch of ExtVar.link_external (idx handed to the group lookup is the indexer, entry by entry; np.array over '
+           'an index list is an uninterpreted coercion) with a native replay over mixed int/str indices.',
+    'C11': 'Also: as_dict with an output converter, GroupBase.alter native replay (interleaved models), declaration contracts.',
+    'C12': 'Also: TDS.do_switch re-checks connectivity once after every dispatched event (native replay with two generator trips).',
+    'C13': 'Also: ModelData.as_dict (input-base values, converter applied to those) as the table handed to the writers.',
+    'C14': 'Also: init_resume never steps across the next pending event or tf; DAE.reset returns to the constructor state (t = -1; '
+           'defect F29 fixed); fix_view_arrays frame + native snapshot round trip; bounded reset-then-power-flow reproducibility.',
+    'C15': 'Also: write_npz with the cached ts.txyz modelled as stale until unpack(); TDSData.export_csv header/body for the same '
+           'index list; native chunked-output and csv replays.',
+    'C16': 'Also: KLU and UMFPACK variants of the solve contract (klu.numeric does not reject a stale symbolic factor: defect F30 '
+           'fixed), _refresh_symbolic class invariant, native replay over matrix sequences for all three back ends.',
+    'C17': 'Also: criteria.deltadelta (verdict <=> fewer than two angles or spread below the limit) with a bounded native check of the '
+           'Python type of the verdict (TDS.run tests "is False").',
+    'C19': 'Also: DeviceFinder.find_or_add with a lookup relation updated by every creation (a helper is created at most once per '
+           'target) + native replay; bounded exhaustive GroupBase.idx2model (unknown idx => KeyError also with allow_none).',
+    'C20': 'Also: ConfigParser callee contracts (add_section / set / has_section) in _update_config_object (defect F31 fixed); native '
+           'replay of Config._set over numeric-looking strings.',
+}
+TECH_SUFFIX = ('; native replay of counter-models and of undecided obligations on the real code; bounded stand-ins are labelled and '
+               'not counted')
+
+
 def main():
     checks = []
     for pid in ALL:
@@ -178,9 +220,10 @@ def main():
             'evidence_file': 'evidence/%s.json' % pid,
             'replay_cmd_template': './check %s --replay {path}' % pid,
             'engine': 'pyvc',
-            'level_claimed': {'category': cat, 'text': text, 'design_ref': ref},
+            'level_claimed': {'category': cat, 'text': text + (' ' + ADDED[pid] if pid in ADDED else ''),
+                              'design_ref': ref + ', 9'},
             'level_note': note,
-            'technique': tech,
+            'technique': tech + TECH_SUFFIX,
         })
     man = {
         'version': 1,
@@ -197,7 +240,7 @@ def main():
                                        'code its generator emits; sidecar contracts in contracts/'}],
         'checks': checks,
         'not_applicable': [{'property_id': p, 'reason': NA_REASON[p]} for p in ALL if p not in CLAIMED],
-        'notes': 'See DESIGN.md. Exit codes: 0 held, 1 violation, 2 undecided (never on the unchanged tree), 3 checker error.',
+        'notes': 'See DESIGN.md (section 9 = as built). Exit codes: 0 held, 1 violation, 2 undecided (never on the unchanged tree), 3 checker error.',
     }
     with open('MANIFEST.json', 'w') as f:
         json.dump(man, f, indent=1)
